@@ -542,6 +542,12 @@ def run(ck):
     nc = run_carrier(radio, agg)
     nm = run_misc(radio, agg)
     nr, rest = run_rest(radio, agg)
+    # "after any sequence of calls": the call sequences include `with` blocks shared with other objects and RX/TX switches - entering a
+    # block re-programs every register from its shadow (R09.1/R09.2, shared with C09) and the pipe-0 address in force follows the
+    # documented RX/TX discipline (R08.x, shared with C08)
+    from . import c09, c08
+    c09.check_enter(radio, agg, radio.cls, ck.prog.method(radio.cls, "__enter__"), radio.ref, c09.havoc_regs(radio, radio.fresh()), "RF24.__enter__", ck.prog.method(radio.cls, "__enter__"))
+    c08.run_for(ck, radio, agg)
     ck.note_extra = getattr(ck, "note_extra", []) + ["R03.3 closure: members storing a shadow outside the scenario tables: %s" % (rest or "none")]
     agg.flush()
     ck.floor("R03", "setter scenarios", ns, 250)
